@@ -27,6 +27,7 @@
 #include <pthread.h>
 #include <signal.h>
 #include <stdatomic.h>
+#include <sys/socket.h>
 #include <unistd.h>
 
 // ------------------------------------------------------------ byte buffer
@@ -229,7 +230,13 @@ rp_fill(rpeer *p, int timeout_ms)
 static void
 rp_close(rpeer *p)
 {
-	if (p->fd >= 0) close(p->fd);
+	if (p->fd >= 0) {
+		// abortive close: thousands of short connections must not pile up
+		// in TIME_WAIT on a machine shared with other checks
+		struct linger lg = { 1, 0 };
+		setsockopt(p->fd, SOL_SOCKET, SO_LINGER, &lg, sizeof(lg));
+		close(p->fd);
+	}
 	p->fd = -1;
 	bb_free(&p->in);
 	p->pos = 0;
@@ -623,8 +630,15 @@ static void
 globals_up(void)
 {
 	int rv;
-	if ((rv = nng_stream_listener_alloc(&g_sl, "ws://127.0.0.1:0/x")) != 0) vf_harness_fail("listener_alloc: %s", nng_strerror(rv));
-	if ((rv = nng_stream_listener_listen(g_sl)) != 0) vf_harness_fail("listen: %s", nng_strerror(rv));
+	// (a kernel short of ephemeral ports can hand out one that cannot be
+	// listened on; that is the machine's state, not nng's: retry)
+	for (int attempt = 0;; attempt++) {
+		if ((rv = nng_stream_listener_alloc(&g_sl, "ws://127.0.0.1:0/x")) != 0) vf_harness_fail("listener_alloc: %s", nng_strerror(rv));
+		if ((rv = nng_stream_listener_listen(g_sl)) == 0) break;
+		nng_stream_listener_free(g_sl);
+		if (rv != NNG_EADDRINUSE || attempt >= 100) vf_harness_fail("listen: %s", nng_strerror(rv));
+		vf_msleep(100);
+	}
 	if ((rv = nng_stream_listener_get_int(g_sl, NNG_OPT_BOUND_PORT, &g_sl_port)) != 0 || g_sl_port == 0) vf_harness_fail("bound port: %s", nng_strerror(rv));
 }
 
@@ -843,7 +857,11 @@ ep_open(wsep *e, const wscfg *cfg, const bb *extra)
 	if (!ROLE_IS_SERVER(cfg->role)) {
 		// a listener of its own: a redial after this connection must be
 		// refused instead of queueing up for the next case
-		if ((lfd = vf_tcp_listen(&lport)) < 0) vf_harness_fail("raw listen");
+		for (int attempt = 0; (lfd = vf_tcp_listen(&lport)) < 0; attempt++) {
+			if (attempt >= 100) vf_harness_fail("raw listen");
+			lport = 0;
+			vf_msleep(100);
+		}
 	}
 	switch (cfg->role) {
 	case R_SL:
@@ -891,11 +909,17 @@ ep_open(wsep *e, const wscfg *cfg, const bb *extra)
 		CK(nng_pair0_open(&e->sock));
 		e->sock_open = true;
 		CK(nng_socket_set_ms(e->sock, NNG_OPT_SENDTIMEO, 10000));
-		CK(nng_listener_create(&e->pl, e->sock, "ws://127.0.0.1:0/x"));
-		if (cfg->maxframe != DEFLT) CK(nng_listener_set_size(e->pl, NNG_OPT_WS_RECVMAXFRAME, cfg->maxframe));
-		if (cfg->recvmax != DEFLT) CK(nng_listener_set_size(e->pl, NNG_OPT_RECVMAXSZ, cfg->recvmax));
-		if (cfg->fragsize != DEFLT) CK(nng_listener_set_size(e->pl, NNG_OPT_WS_SENDMAXFRAME, cfg->fragsize));
-		CK(nng_listener_start(e->pl, 0));
+		for (int attempt = 0;; attempt++) {
+			CK(nng_listener_create(&e->pl, e->sock, "ws://127.0.0.1:0/x"));
+			if (cfg->maxframe != DEFLT) CK(nng_listener_set_size(e->pl, NNG_OPT_WS_RECVMAXFRAME, cfg->maxframe));
+			if (cfg->recvmax != DEFLT) CK(nng_listener_set_size(e->pl, NNG_OPT_RECVMAXSZ, cfg->recvmax));
+			if (cfg->fragsize != DEFLT) CK(nng_listener_set_size(e->pl, NNG_OPT_WS_SENDMAXFRAME, cfg->fragsize));
+			int lrv = nng_listener_start(e->pl, 0);
+			if (lrv == 0) break;
+			nng_listener_close(e->pl);
+			if (lrv != NNG_EADDRINUSE || attempt >= 100) vf_harness_fail("nng_listener_start: %s", nng_strerror(lrv));
+			vf_msleep(100);
+		}
 		CK(nng_listener_get_int(e->pl, NNG_OPT_BOUND_PORT, &port));
 		if ((e->raw.fd = vf_tcp_connect((uint16_t) port, 5000)) < 0) vf_harness_fail("raw connect (sp)");
 		ok = handshake_as_client(e, port);
@@ -1240,8 +1264,15 @@ valid_replay(wsep *e, const wstream *s, const wsdec *ref, int seg, size_t a, siz
 		}
 	}
 	pthread_mutex_unlock(&e->mtx);
-	if (ok && !ponged) {
-		vf_violation("C16/ws-emit/pong-missing", "%s: plan %s: %d PING frames sent, %d PONG frames received within 10 s", e->desc, plan, s->npings, e->emit.npong - npong0);
+	if (ok && e->emit.npong - npong0 < s->npings) {
+		if (e->raw.eof || e->emit.nclose > 0) {
+			// the connection was failed while PINGs of a valid stream were outstanding
+			vf_violation(ref->ctl_over_max ? "C16/ws-valid-rejected/control-frame-counted-against-recvmaxsz" : "C16/ws-valid-rejected/connection-failed",
+			    "%s: valid stream of %zu bytes, plan %s: nng closed the connection with %d of %d PINGs unanswered%s", e->desc, s->wire.n, plan, s->npings - (e->emit.npong - npong0), s->npings,
+			    ref->ctl_over_max ? "; the stream has a control frame whose payload (plus the unfinished message around it) exceeds NNG_OPT_RECVMAXSZ, which limits messages" : "");
+		} else {
+			vf_violation("C16/ws-emit/pong-missing", "%s: plan %s: %d PING frames sent, %d PONG frames received within 10 s", e->desc, plan, s->npings, e->emit.npong - npong0);
+		}
 		ok = false;
 	}
 	if (ok && !lp_same(e->emit.pongs.p + pong0, e->emit.pongs.n - pong0, ref->pings.p, ref->pings.n)) {
